@@ -12,6 +12,48 @@ class TaskFault(ValueError):
     pass
 
 
+class CtorFault(Exception):
+    """Pickles, but cannot be unpickled: Exception.__reduce__ replays only self.args."""
+
+    def __init__(self, k, text):
+        super().__init__("%s (task %d)" % (text, k))
+
+
+FAULT_KINDS = ("plain", "local", "timeout", "ctor", "lock")
+
+
+def make_fault(k, kind):
+    """The exception a failing task raises. Kinds other than 'plain' are what hypnotoad's own tasks
+    raise: a class defined inside a function (followPerpendicular's MaxIterException) and
+    func_timeout.FunctionTimedOut (a BaseException carrying the timed-out local function) cannot be
+    serialised by the standard pickle that multiprocessing queues use."""
+    msg = "task %d was told to fail" % k
+    if kind == "plain":
+        return TaskFault(msg)
+    if kind == "local":
+
+        class LocalFault(Exception):
+            pass
+
+        return LocalFault(msg)
+    if kind == "timeout":
+        from func_timeout import FunctionTimedOut
+
+        def timed_out_function():
+            return None
+
+        return FunctionTimedOut(msg, 1.0, timed_out_function, (), {})
+    if kind == "ctor":
+        return CtorFault(k, "task %d was told to fail" % k)
+    if kind == "lock":
+        import threading
+
+        e = TaskFault(msg)
+        e.lock = threading.Lock()
+        return e
+    raise ValueError(kind)
+
+
 def value(k, payload):
     return (k, payload * 7 + 3, "p%d" % payload)
 
@@ -32,7 +74,7 @@ def task(k, payload, scratch, fault, **kw):
             raise RuntimeError("harness: token for task %d never arrived" % k)
     if fault:
         _touch(os.path.join(scratch, "raised_%d" % k))
-        raise TaskFault("task %d was told to fail" % k)
+        raise make_fault(k, "plain" if fault is True else fault)
     # the equilibrium must have arrived intact in the worker
     eq = kw["equilibrium"]
     v = value(k, payload)
